@@ -63,7 +63,8 @@ type Driver[T any] struct {
 	Lens func(o *T) map[string]int
 	// Extra appends accessor results (methods a caller would use) to the observation.
 	Extra func(o *T, buf []byte, sb *strings.Builder)
-	// NoBodyCLen: returns true when the observation's body extent is exempt (C03)
+	// Post: extra sanity probe run after every call under the C04 oracle (returns "" or a panic/defect text).
+	Post func(o *T, buf []byte) string
 	plan *plan
 }
 
@@ -192,7 +193,8 @@ func stripIdx(s string) string {
 // Frag is one edge label of a fragment trie: its bytes become one trie node each.
 type Frag struct {
 	B    []byte
-	Next any // generator state after this fragment
+	Next any  // generator state after this fragment
+	Skip bool // replayed context only: the nodes of this fragment are neither counted nor checked here
 }
 
 // TrieGen defines the input space.
@@ -521,7 +523,7 @@ func (w *worker[T]) runJob(path []Frag, own int) {
 	depth := 0
 	alive := true
 	for i, f := range path {
-		w.count = i >= own
+		w.count = i >= own && !f.Skip
 		for _, c := range f.B {
 			w.buf = append(w.buf, c)
 			depth++
@@ -558,6 +560,7 @@ func (w *worker[T]) dfs(st any, depth int) {
 	for _, f := range frags {
 		ok := true
 		d := depth
+		w.count = !f.Skip
 		for _, c := range f.B {
 			w.buf = append(w.buf, c)
 			d++
@@ -566,6 +569,7 @@ func (w *worker[T]) dfs(st any, depth int) {
 				break
 			}
 		}
+		w.count = true
 		if ok {
 			w.dfs(f.Next, d)
 		} else {
@@ -629,6 +633,11 @@ func (w *worker[T]) sanity(o *T, offs, n int, e sipsp.ErrorHdr, pmsg string, ble
 	}
 	if bad := w.e.Drv.plan.pfieldsBad(unsafe.Pointer(o), blen, w.e.Drv.lens(o)); bad != "" {
 		w.vio("C04", "field-dereferenceable", stripIdx(strings.SplitN(bad, "=", 2)[0]), bad+" after verdict "+errName(e), s, blen, cfg)
+	}
+	if w.e.Drv.Post != nil {
+		if m := w.e.Drv.Post(o, w.buf[:blen]); m != "" {
+			w.vio("C04", "derived-call-no-panic", panicClass(m), "after verdict "+errName(e)+": "+m, s, blen, cfg)
+		}
 	}
 }
 
@@ -979,6 +988,11 @@ func replaySchedule[T any](prop string, d *Driver[T], c *Case, or Oracles) []*Vi
 				}
 				if bad := d.plan.pfieldsBad(unsafe.Pointer(o), len(w), d.lens(o)); bad != "" {
 					add("C04", "field-dereferenceable", stripIdx(strings.SplitN(bad, "=", 2)[0]), bad)
+				}
+				if d.Post != nil {
+					if m := d.Post(o, w); m != "" {
+						add("C04", "derived-call-no-panic", panicClass(m), m)
+					}
 				}
 			}
 			if i == 0 && fe == errPanic {
